@@ -726,7 +726,6 @@ impl Server {
             self.stats.total_commands_processed.fetch_add(1, Ordering::Relaxed);
             
             // Check for special commands that need connection access
-            let mut sync_response = None;
             if let RespFrame::Array(Some(parts)) = &frame {
                 if !parts.is_empty() {
                     if let RespFrame::BulkString(Some(bytes)) = &parts[0] {
@@ -757,25 +756,13 @@ impl Server {
                         if command == "QUIT" {
                             should_close = true;
                         }
-                        
-                        // Handle SYNC/PSYNC commands that need connection access
-                        if command == "SYNC" || command == "PSYNC" {
-                            sync_response = Some(match self.handle_sync_command(&command, parts, id) {
-                                Ok(resp) => resp,
-                                Err(e) => Self::command_error_reply(e)?,
-                            });
-                        }
                     }
                 }
             }
             
-            let response = if let Some(sync_resp) = sync_response {
-                sync_resp
-            } else {
-                match self.process_frame(frame, id) {
-                    Ok(resp) => resp,
-                    Err(e) => Self::command_error_reply(e)?,
-                }
+            let response = match self.process_frame(frame, id) {
+                Ok(resp) => resp,
+                Err(e) => Self::command_error_reply(e)?,
             };
             responses.push(response);
         }
@@ -970,6 +957,13 @@ impl Server {
                         "QUIT" => return Ok(RespFrame::ok()),
                         _ => return Ok(RespFrame::error("NOAUTH Authentication required")),
                     }
+                }
+                
+                // SYNC/PSYNC need connection access (replica registration, RDB transfer).
+                // They are handled here, after the authentication check above, so that an
+                // unauthenticated client cannot obtain the dataset or register as a replica.
+                if command.as_str() == "SYNC" || command.as_str() == "PSYNC" {
+                    return self.handle_sync_command(&command, parts, conn_id);
                 }
                 
                 // Special handling for MONITOR command
